@@ -9,7 +9,7 @@ TRACE_CFG = "NamesTrace.cfg"
 RULE = ("random glyph-name sets (suffixes, ligature underscores, names colliding with generated uniXXXX / '.N' names incl. chains "
         "where the de-duplicated name N.1 itself collides with a later glyph, names longer "
         "than 63 characters) x public.postscriptNames maps (duplicates, empty values, illegal characters, > 63 characters) x lib "
-        "switches (useProductionNames, keepGlyphNames, the Glyphs legacy key) and the argument x {TTF, CFF, CFF2}, with kerning, "
+        "switches (useProductionNames, keepGlyphNames, the Glyphs legacy key) and the argument x {TTF, CFF, CFF2, variable TTF, variable CFF2}, with kerning, "
         "GSUB and cmap present so that every table refers to glyph indices; both fonts are saved and every table's raw bytes are "
         "compared (head.checkSumAdjustment masked); non-trivial = at least one glyph is renamed; distinct by digest of names + "
         "lib + flavour")
@@ -71,7 +71,7 @@ def cases(tier, seed):
             ufo["kernScale"] = 4
         if "a" in names and "a.alt" in names:
             ufo["fea"] = "feature ss01 { sub a by a.alt; } ss01;"
-        flavor = rng.choice(["tt", "cff", "cff2"])
+        flavor = rng.choice(["tt", "cff", "cff2", "tt", "cff", "cff2", "vf-tt", "vf-cff2"])
         out.append({"cid": f"c11-{seed}-{k}", "lib": rng.choice(["ufoLib2", "defcon"]), "ufo": ufo, "flavor": flavor,
                     "kwargs_on": kwargs_on, "mode": mode})
     return out
@@ -99,7 +99,13 @@ def execute(case):
     for variant in ("off", "on"):
         font = absfont.build_font(case["ufo"], case["lib"])
         kw = {"useProductionNames": False} if variant == "off" else dict(case["kwargs_on"])
-        if case["flavor"] == "tt":
+        if case["flavor"].startswith("vf"):
+            # the same UFO as the default of a two-master family: the variable font goes through the same post-processor
+            from .. import layout_exec
+
+            ds, _ = layout_exec._two_master_family({"ufo": case["ufo"], "lib": case["lib"]})
+            otf = (ufo2ft.compileVariableTTF if case["flavor"] == "vf-tt" else ufo2ft.compileVariableCFF2)(ds, **kw)
+        elif case["flavor"] == "tt":
             otf = ufo2ft.compileTTF(font, **kw)
         else:
             otf = ufo2ft.compileOTF(font, cffVersion=2 if case["flavor"] == "cff2" else 1, **kw)
